@@ -158,7 +158,32 @@ def views(rng, nview, counters, digests, violations, samples):
         spec["wv"] = [rng.choice([1.0, 0.5, 3.0, 10.0]) for _ in range(n)]
         spec["x0"] = [rng.uniform(-1, 1) for _ in range(n)]
         spec["step"] = 1e-7
+        # half of the problems: other entry points of the same Optimize object are used first (their own business if they
+        # fail), with tolerances wide enough that the views are then examined at points where every target is met
+        pre = rng.choice([None, None, None, ["run_simplex"], ["solve"], ["run_simplex", "solve"], ["run_bfgs"], ["step", "run_simplex"],
+                          ["run_l_bfgs_b"], ["run_ls_trf"]])
+        if pre is not None:
+            spec["tol"] = [rng.choice([1e-2, 0.5, 5.0])] * spec["m"]
+        spec["pre"] = pre
         S = optmon.Setup(spec)
+        base_knobs = list(spec["x0"])
+        for name in pre or []:
+            try:
+                if name == "solve":
+                    S.opt.solve()
+                elif name == "step":
+                    S.opt.step(1)
+                else:
+                    getattr(S.opt, name)(n_steps=3)
+            except Exception:
+                counters["prior_calls_raised"] = counters.get("prior_calls_raised", 0) + 1
+        if pre is not None:
+            counters["views_after_other_entry_points"] = counters.get("views_after_other_entry_points", 0) + 1
+            cur = [float(v) for v in S.knobs()]
+            if all(lo < c < hi for c, (lo, hi) in zip(cur, spec["limits"])):
+                base_knobs = cur
+            if np.all(np.abs(S.residuals(base_knobs)) < np.array(spec["tol"])):
+                counters["views_examined_where_all_targets_are_met"] = counters.get("views_examined_where_all_targets_are_met", 0) + 1
         err = S.opt._err
         wit = {"spec": spec}
         # ---- mapping identities --------------------------------------------------------------
@@ -182,7 +207,7 @@ def views(rng, nview, counters, digests, violations, samples):
         for rs, rx in itertools.product((False, True), (None, (0.0, 1.0), (-1.0, 1.0), (2.0, 7.0))):
             view = S.opt.get_merit_function(return_scalar=rs, rescale_x=rx, check_limits=False)
             # (not view.get_x(): the finite-difference probes of the previous view leave the knobs displaced)
-            xn0 = np.array(err._knobs_to_x(spec["x0"]), dtype=float)
+            xn0 = np.array(err._knobs_to_x(list(base_knobs)), dtype=float)
             xv = np.array(view._scaled_from_native(xn0), dtype=float) if rx is not None else xn0
             where = rng.choice(["interior", "interior", "upper", "lower", "mixed"])
             if where != "interior":
@@ -255,7 +280,9 @@ TEXT = ("Held on every case observed: ~24 000 (quick) / ~3.8 million (thorough) 
         "1..6 plus every lstsq call made inside the optimizer workloads (contract on the real method, also active in "
         "C09/C10/C15), ~480 / 48 000 consistent linear problems (first step, solve with and without Broyden), and every "
         "(return_scalar, rescale_x) view compared with central differences together with the mapping identities. "
-        "Numerical tolerances come from an explicit error model; exploration over sampled matrices and problems.")
+        "Numerical tolerances come from an explicit error model; exploration over sampled matrices and problems."
+        " Half of the view problems first use other entry points of the same Optimize object (run_simplex, solve, step, run_bfgs, "
+        "run_l_bfgs_b, run_ls_trf) with wide tolerances, so that views are also examined at points where every target is met.")
 NOTE = ("Trusted: numpy's SVD/pinv as the independent reference for the truncated minimum-norm solution; the "
         "finite-difference error model behind the tolerances.")
 TECHNIQUE = "runtime monitoring: contract (post-condition) on every SVD.lstsq call against an independently recomputed truncated-SVD solution + algebraic identity and finite-difference oracles"
